@@ -88,7 +88,7 @@ Rep(s, k) == IF k = 0 THEN <<>> ELSE s \o Rep(s, k - 1)
 Idle == [n |-> Zero, alg |-> "", primes |-> <<>>, known |-> FALSE, frames |-> <<>>, track |-> FALSE, algseen |-> FALSE,
          open |-> FALSE]
 
-AllGt1(s) == \A i \in 1..Len(s) : Gt(s[i], One)
+AllGe1(s) == \A i \in 1..Len(s) : s[i] # Zero
 
 (* Step(e) = <<strict, drift, new state>> for a hook event while tracking *)
 Step(e) ==
@@ -121,9 +121,10 @@ Step(e) ==
          \* divisors handed back by a sieve: implementation detail (a wrong one trips the code's own assertion)
          <<TRUE, \A i \in 1..Len(e.divs) : Divides(e.divs[i], e.n) /\ Gt(e.divs[i], One) /\ Lt(e.divs[i], e.n), st>>
     [] e.op = "fi_split" ->
-         \* every split multiplies back to its parent and has no trivial part
+         \* every split multiplies back to its parent (P-1 reports a complete factorisation with a last part 1,
+         \* which factor_impl(1) drops: a part 1 is harmless, a part 0 is not)
          LET here == IndexOf(f.pend, e.n) # 0
-             ok == Len(e.parts) >= 1 /\ AllGt1(e.parts) /\ Prod(e.parts) = e.n
+             ok == Len(e.parts) >= 1 /\ AllGe1(e.parts) /\ Prod(e.parts) = e.n
          IN <<ok, here,
               IF ok /\ here THEN SetTop([f EXCEPT !.pend = RemoveOne(@, e.n) \o e.parts]) ELSE [st EXCEPT !.track = FALSE]>>
     [] e.op = "fi_push" ->
@@ -153,7 +154,7 @@ RetStrict(e) ==
 
 \* the returned list is the sorted multiset of the pushes (how the code works today)
 RetDrift(e) ==
-  (st.track /\ e.kind = "list" /\ st.n # Zero) =>
+  (Prop = "C01" /\ st.track /\ e.kind = "list" /\ st.n # Zero) =>
      /\ Len(st.frames) = 1 /\ Top.pend = <<>>
      /\ Len(e.fs) = Len(Top.out) /\ Prod(e.fs) = Prod(Top.out)
 
